@@ -85,6 +85,7 @@ QUICK_M = list(range(2, 13))
 QUICK_N = list(range(3, 12))
 THOROUGH_M = [16, 20, 25, 32, 40]
 THOROUGH_N = [13, 17, 21, 25]
+LARGE_SIZES = {"quick": [60, 300], "thorough": [60, 100, 150, 200, 250, 292, 293, 294, 300, 350, 400]}
 OFFNODE = [(-1.0 + k / 8.0) for k in range(17)]  # 17 dyadic points incl. +-1 and 0
 
 
@@ -192,6 +193,13 @@ def enumerate_cases(tier):
         ("Grid", "Grid3Scales"), QUICK_M, QUICK_N, R.DIRECTIONS, (False, True), R.BASES
     ):
         yield {"kind": "config", "gk": gk, "M": M, "N": N, "dir": d, "ep": e, "basis": b}
+    # fine grids ("every grid size"): nodes + the complete cardinal/Chebyshev derivative operator only (the other
+    # sub-oracles cost minutes per configuration at these sizes).  Round-4 seed: exact node-coincidence tests replaced
+    # by np.isclose, wrong from 293 nodes on, where neighbouring Gauss-Lobatto nodes are closer than 1e-8 apart.
+    for n, d, e in itertools.product(LARGE_SIZES[tier], R.DIRECTIONS, (False, True)):
+        n_ = n + 1 if (d != "z" and n % 2 == 0) else n       # momentum grids have odd N
+        yield {"kind": "config", "gk": "Grid", "M": n_ if d == "z" else 3, "N": 3 if d == "z" else n_, "dir": d,
+               "ep": e, "basis": "Cardinal", "only": "derivMatrix"}
     if tier == "thorough":
         for M, N, d, e, b in itertools.product(THOROUGH_M, THOROUGH_N, R.DIRECTIONS, (False, True), R.BASES):
             yield {"kind": "config", "gk": "Grid", "M": M, "N": N, "dir": d, "ep": e, "basis": b}
@@ -264,6 +272,9 @@ def check_config(case, v: Verdict):
     _cmp(v, "matrix", cls, P0.matrix(b, d, ep), ref.V[b], tf * (np.abs(ref.V[b]) + np.abs(ref.V1[b]) + 1.0), f"matrix({b})")
     v.checked("derivMatrix")
     _cmp(v, "derivMatrix", cls, P0.derivMatrix(b, d, ep), ref.D[b], tf * ref.Db[b], f"derivMatrix({b})")
+    if case.get("only") == "derivMatrix":
+        v.label("config:large-derivMatrix-only")
+        return
 
     def ident():
         return Polynomial(eye.copy(), grid, (b, "Array"), (d, "z"), (ep, False))
@@ -604,8 +615,20 @@ def check_poly(case, v: Verdict):
     v.label("eval:partial_axes" if partial else "eval:all_axes",
             *{f"pt:{s[0]}" for row in case["ev_pts"] for s in row})
     v.checked("evaluate")
-    got = mk(A).evaluate(coords, tuple(ev_axes))
+    Pshared = mk(A)
+    got = Pshared.evaluate(coords, tuple(ev_axes))
     _cmp(v, "evaluate", clse, got, exp, tol_ev, f"evaluate along axes {ev_axes}")
+    # evaluate and derivative do not change the object: asking the same object again (also after a derivative was
+    # taken from it) returns the same numbers as the first call (round-4 seed: per-axis index cache mutated in place)
+    v.checked("evaluate-repeat")
+    got2 = Pshared.evaluate(coords, tuple(ev_axes))
+    Pshared.derivative(tuple(case["de_axes"]) if len(case["de_axes"]) != 1 else case["de_axes"][0])
+    got3 = Pshared.evaluate(coords, tuple(ev_axes))
+    for nm, g in (("second", got2), ("third (after derivative)", got3)):
+        if not np.array_equal(np.asarray(g), np.asarray(got)):
+            v.fail("evaluate-repeat", clse, f"{nm} evaluate on the same object differs from the first by "
+                                            f"{np.max(np.abs(np.asarray(g) - np.asarray(got))):.3e}")
+            break
     lin_check("evaluate", clse, lambda Q: Q.evaluate(coords, tuple(ev_axes)), tol_ev, "evaluate")
     if not partial:
         got = mk(A).evaluate(coords, None)
